@@ -168,7 +168,8 @@ def history_cases(ctx, n):
                 ctx.violation('sound', 'view.differs_for_equal_states',
                               f'{name} area {obsgen.area_json(area)}: a state reached through the dynamics and a freshly built equal '
                               f'state are observed differently', 'obs_case',
-                              {'state': enc.state_to_json(state), 'area': obsgen.area_json(area), 'fn': name, 'via_visibility': False, 'seed': 0})
+                              {'state': enc.state_to_json(state), 'area': obsgen.area_json(area), 'fn': name, 'via_visibility': False, 'seed': 0,
+                               'hist_key': [ctx.seed, ctx.shard, k]})
 
 
 def shipped(ctx, seeds, steps):
@@ -218,4 +219,13 @@ def run(ctx):
 def replay(ctx, kind, payload):
     state = enc.state_from_json(payload['state'])
     area = obsgen.area_from_json(payload['area'])
+    if 'hist_key' in payload:  # state reached through the real dynamics: regenerate that history
+        hstate = obsgen.history_state(gen.rng_for('C05hist', *payload['hist_key']))
+        fn = obsgen.build_obs(payload['fn'], area)
+        ok1, o1 = call_real(fn, hstate, rng=None)
+        ok2, o2 = call_real(fn, obsgen.rebuilt(hstate), rng=None)
+        ctx.ev()
+        if ok1 and ok2 and enc.es(o1) != enc.es(o2):
+            ctx.violation('sound', 'view.differs_for_equal_states', 'history state observed differently from its rebuilt copy', kind, payload)
+        state = hstate
     observe(ctx, state, area, payload['fn'], payload.get('via_visibility', False), payload.get('seed', 0))
